@@ -40,6 +40,11 @@ def allowed(store, allow, sites=None):
     for a in allow["allow"]:
         if a["file"] != store.file or not (a["function"] == "" or store.func == a["function"]):
             continue
+        if "elements_of_result" in a:
+            # the store goes through the loop variable of `for x in <local unpacked from callee(...)>`, whatever the names are
+            if store.origin == ("elem-of-result", a["elements_of_result"]):
+                return a
+            continue
         if "param" in a:
             # the store goes through the function's parameter number `param`, whatever it is called
             if store.pidx == a["param"]:
@@ -47,11 +52,28 @@ def allowed(store, allow, sites=None):
             continue
         if store.target.startswith(a["target"]):
             return a
+    # a module-level private helper that loops over a parameter and stores into its elements: fine when every caller hands it the very collection whose
+    # elements the caller itself is allowed to store into (an `elements_of_result` entry of the caller)
+    if sites is not None and store.origin is not None and store.origin[0] == "elem-of-param" and "." not in store.func and store.func.startswith("_"):
+        k = store.origin[1]
+        calls = sites.get((store.file, store.func), [])
+        if calls and all(len(fr) > k and isinstance(fr[k], tuple) and fr[k][0] == "result-of" and any(
+                e["file"] == store.file and e["function"] == fr[k][2] and e.get("elements_of_result") == fr[k][1] for e in allow["allow"]) for fr in calls):
+            return {"category": "helper-of-allowed-elements", "reason": f"all {len(calls)} call sites pass the collection whose elements the caller may store into"}
     # a module-level private helper that writes into a parameter is fine when every caller hands it an object of its own
     if sites is not None and store.pidx is not None and "." not in store.func and store.func.startswith("_"):
         calls = sites.get((store.file, store.func), [])
-        if calls and all(len(fr) > store.pidx and fr[store.pidx] == "fresh" for fr in calls):
-            return {"category": "helper-of-fresh-argument", "reason": f"all {len(calls)} call sites pass an object allocated by the caller (or its own **kwargs)"}
+        def owned(fr):
+            if len(fr) <= store.pidx:
+                return False
+            a = fr[store.pidx]
+            if a == "fresh":
+                return True
+            # the caller hands on its own parameter, and stores through that parameter are part of the enumerated in-place API in the caller
+            return isinstance(a, tuple) and a[0] == "param" and any(
+                e["file"] == store.file and e["function"] == a[1] and e.get("param") == a[2] for e in allow["allow"])
+        if calls and all(owned(fr) for fr in calls):
+            return {"category": "helper-of-fresh-argument", "reason": f"all {len(calls)} call sites pass an object allocated by the caller (or its own **kwargs), or the parameter through which the caller itself is allowed to store"}
     for pat in allow.get("registration_patterns", []):
         if "/_compute/" in store.file and store.func.startswith(pat["function_prefix"]) and store.target.startswith(pat["target_prefix"]):
             return pat
